@@ -47,24 +47,31 @@ fn check_vehicle_load_assignment(context: &CheckerContext) -> GenericResult<()> 
                             return Err(format!("load exceeds capacity in tour '{}'", tour.vehicle_id).into());
                         }
 
-                        let change = to.activities().iter().try_fold::<_, _, GenericResult<_>>(
-                            MultiDimLoad::default(),
-                            |acc, activity| {
-                                let activity_type = context.get_activity_type(tour, to, activity)?;
-                                let (demand_type, demand) =
-                                    if activity.activity_type == "arrival" || activity.activity_type == "reload" {
-                                        (DemandType::StaticDelivery, end_pickup)
-                                    } else {
-                                        get_demand(context, activity, &activity_type)?
-                                    };
+                        let get_load_change = |stop: &Stop| {
+                            stop.activities().iter().try_fold::<_, _, GenericResult<_>>(
+                                MultiDimLoad::default(),
+                                |acc, activity| {
+                                    let activity_type = context.get_activity_type(tour, stop, activity)?;
+                                    let (demand_type, demand) =
+                                        if activity.activity_type == "arrival" || activity.activity_type == "reload" {
+                                            (DemandType::StaticDelivery, end_pickup)
+                                        } else {
+                                            get_demand(context, activity, &activity_type)?
+                                        };
 
-                                Ok(match demand_type {
-                                    DemandType::StaticDelivery | DemandType::DynamicDelivery => acc - demand,
-                                    DemandType::StaticPickup | DemandType::DynamicPickup => acc + demand,
-                                    DemandType::None | DemandType::StaticPickupDelivery => acc,
-                                })
-                            },
-                        )?;
+                                    Ok(match demand_type {
+                                        DemandType::StaticDelivery | DemandType::DynamicDelivery => acc - demand,
+                                        DemandType::StaticPickup | DemandType::DynamicPickup => acc + demand,
+                                        DemandType::None | DemandType::StaticPickupDelivery => acc,
+                                    })
+                                },
+                            )
+                        };
+
+                        // NOTE: stop's load is reported after all its activities are done, so jobs served
+                        // at the departure stop have already changed the load the tour starts with
+                        let acc = if *idx == 0 { acc + get_load_change(from)? } else { acc };
+                        let change = get_load_change(to)?;
 
                         let is_from_valid = from_load == acc;
                         let is_to_valid = to_load == from_load + change;
